@@ -12,7 +12,7 @@ pub fn run(tier: &str, seed: u64) -> i32 {
         "default cargo features: a vault over a token-factory denom cannot be instantiated (its cw20 LP symbol is rejected), so the 'no burn fee on token-factory assets' clause is checked over all attempts and reported with the number of reachable such vaults".into(),
     ];
     let depth = if tier == "quick" { 3 } else { 4 };
-    for group in ["pools", "vaults", "governance"] {
+    for group in ["pools", "ramps", "vaults", "governance"] {
         if !ev.violations.is_empty() {
             break;
         }
@@ -29,7 +29,7 @@ pub fn run(tier: &str, seed: u64) -> i32 {
 
 pub fn replay(doc: &Value) -> bool {
     let name = doc["scenario"].as_str().unwrap_or("");
-    for group in ["pools", "vaults", "governance"] {
+    for group in ["pools", "ramps", "vaults", "governance"] {
         let s = ConfigScn { group: group.to_string() };
         if s.name() == name {
             return replay_trace(&s, doc);
